@@ -59,6 +59,8 @@ pub struct Ctx {
     pub kill_at: Option<(usize, usize, u32)>,
     /// victim processes only: report every returned commit on stdout
     pub report_commits: bool,
+    /// node of every commit that returned Ok, in order (the linearization order of commits)
+    pub commit_log: Vec<usize>,
 }
 
 impl Ctx {
@@ -78,6 +80,7 @@ impl Ctx {
             crash: false,
             kill_at: None,
             report_commits: false,
+            commit_log: Vec::new(),
         }
     }
 }
@@ -220,11 +223,24 @@ pub enum PollOutcome {
     Done,
     /// the fault plan stopped the node here; the caller must drop the future
     Crashed,
+    /// (step_nowait only) the node is waiting on a real thread, e.g. inside SQLite's BEGIN
+    /// IMMEDIATE while another handle holds the write lock
+    Blocked,
 }
 
 /// Poll node `n` until it parks at a scheduling point, completes, or is crashed. Waits on real
 /// threads (SQLite actor) are absorbed here: other nodes are never polled meanwhile.
 pub fn step(n: usize, fut: &mut NodeFut) -> PollOutcome {
+    step_inner(n, fut, true)
+}
+
+/// Like `step`, but if the node turns out to wait on a real thread, return `Blocked` at once
+/// instead of waiting (the node keeps waiting in the background; `step` it again later).
+pub fn step_nowait(n: usize, fut: &mut NodeFut) -> PollOutcome {
+    step_inner(n, fut, false)
+}
+
+fn step_inner(n: usize, fut: &mut NodeFut, wait: bool) -> PollOutcome {
     let tw = Arc::new(ThreadWaker { thread: std::thread::current(), woken: AtomicBool::new(false) });
     let waker = Waker::from(tw.clone());
     let mut cx = Context::from_waker(&waker);
@@ -244,6 +260,9 @@ pub fn step(n: usize, fut: &mut NodeFut) -> PollOutcome {
                 }
                 if let Some(k) = parked {
                     break PollOutcome::Parked(k);
+                }
+                if !wait {
+                    break PollOutcome::Blocked;
                 }
                 while !tw.woken.swap(false, Ordering::SeqCst) {
                     std::thread::park();
@@ -267,7 +286,14 @@ pub fn kill_self() -> ! {
 
 /// Called by the storage seam right after a real commit returned Ok.
 pub fn commit_returned() {
-    let report = with_ctx(|c| c.report_commits).unwrap_or(false);
+    let report = with_ctx(|c| {
+        if c.active {
+            let n = c.cur_node;
+            c.commit_log.push(n);
+        }
+        c.report_commits
+    })
+    .unwrap_or(false);
     if report {
         let msg = b"C\n";
         unsafe {
